@@ -176,11 +176,7 @@ func Run(prop string, seed uint64, idx, n int, cfg *Config, ops []Op, cnt *Count
 				}
 			}
 		}
-		if op.Kind == "block" {
-			tol.N += int64(len(c.Types) + len(prev.Cdps))
-		} else {
-			tol.N++
-		}
+		tol.Step(prev, after)
 		if cls == ClassOk {
 			out.OkOps++
 			splits(w, op, prev, after, mark)
